@@ -290,7 +290,7 @@ PROFILES = {
 
 
 class InterfaceGen:
-    def __init__(self, tape, profile="pybind", tag="", max_decls=6, rich=None):
+    def __init__(self, tape, profile="pybind", tag="", max_decls=6, ns_pool=None, force_ns=False):
         self.t = tape
         self.p = dict(PROFILES[profile])
         self.profile = profile
@@ -300,6 +300,8 @@ class InterfaceGen:
         self.foreign = []              # forward-declared foreign qualified names
         self.used_names = set()
         self.enums_global = []         # (ns, Enum)
+        self.ns_pool = ns_pool or NS_NAMES
+        self.force_ns = force_ns
 
     # -- names ----------------------------------------------------------------
     def fresh(self, pool, label, suffix=True):
@@ -602,7 +604,7 @@ class InterfaceGen:
         if self.p["typedefs"] and self.p["templates"]:
             opts.append(("typedef", 1))
         if depth < self.p["ns_depth"]:
-            opts.append(("namespace", 2))
+            opts.append(("namespace", 2 if self.ns_pool is NS_NAMES else 6))
         kind = t.wpick(opts, "decl-kind")
         if kind == "class":
             return [self.gen_class(ns)]
@@ -648,7 +650,7 @@ class InterfaceGen:
             td = Typedef(Ty("::".join(ns + [c.name]), targs=[inst]), new)
             return [c, td]
         if kind == "namespace":
-            n = Namespace(t.pick(NS_NAMES, "nsname"), ns)
+            n = Namespace(t.pick(self.ns_pool, "nsname"), ns)
             k = 1 + t.small(3, "ns-ndecl", p=0.6)
             for _ in range(k):
                 n.content += self.gen_decl(ns + [n.name], depth + 1)
@@ -657,6 +659,13 @@ class InterfaceGen:
 
     def module(self):
         m = Module()
+        if self.force_ns:
+            # a package that every file of a shared toolbox directory has (cf. +gtsam)
+            ns = Namespace(self.ns_pool[0], [])
+            ns.content.append(self.gen_class([ns.name]))
+            if self.t.bool(0.5, "force-ns-more"):
+                ns.content += self.gen_decl([ns.name], 1)
+            m.content.append(ns)
         n = 1 + self.t.small(self.max_decls - 1, "ndecl", p=0.8)
         for _ in range(n):
             m.content += self.gen_decl([], 0)
@@ -696,9 +705,9 @@ def render(lexemes, tape, style=None):
     return "".join(out)
 
 
-def generate(tape, profile="pybind", tag="", max_decls=6):
+def generate(tape, profile="pybind", tag="", max_decls=6, ns_pool=None, force_ns=False):
     """-> (Module model, lexemes, decl_starts)"""
-    g = InterfaceGen(tape, profile, tag, max_decls)
+    g = InterfaceGen(tape, profile, tag, max_decls, ns_pool, force_ns)
     m = g.module()
     lex, starts = m.lexemes()
     return m, lex, starts
